@@ -182,53 +182,7 @@ func runC10(c *Ctx) {
 		})
 		c.Ob("DIRECT-FLAG", "getModuleDepsRec/first-classification-sticks", rec.Decl.Pos(), okStick, true, "a dependency is recorded only when absent from the result map (an earlier direct classification is never overwritten): %v", okStick)
 		// (4) WKT exception
-		okWkt := false
-		ast.Inspect(rec.Decl.Body, func(n ast.Node) bool {
-			ifs, ok := n.(*ast.IfStmt)
-			if !ok || !strings.Contains(exprString(ifs.Cond), "datawkt.Exists") {
-				return true
-			}
-			for _, st := range ifs.Body.List {
-				if b, ok := st.(*ast.BranchStmt); ok && b.Tok == token.CONTINUE {
-					// must lie under errors.Is(err, fs.ErrNotExist)
-					for cur := p.Parent(ifs); cur != nil && cur != rec.Decl; cur = p.Parent(cur) {
-						if outer, ok := cur.(*ast.IfStmt); ok && strings.Contains(exprString(outer.Cond), "ErrNotExist") {
-							okWkt = true
-						}
-					}
-				}
-			}
-			return true
-		})
-		// and no other `continue` on an error edge
-		otherContinue := false
-		ast.Inspect(rec.Decl.Body, func(n ast.Node) bool {
-			b, ok := n.(*ast.BranchStmt)
-			if !ok || b.Tok != token.CONTINUE {
-				return true
-			}
-			underErr, underWkt := false, false
-			for cur := p.Parent(b); cur != nil && cur != rec.Decl; cur = p.Parent(cur) {
-				if ifs, ok := cur.(*ast.IfStmt); ok && containsNode(ifs.Body, b) {
-					if nonNilErrTested(info, ifs.Cond) != nil {
-						underErr = true
-					}
-					if strings.Contains(exprString(ifs.Cond), "datawkt.Exists") {
-						underWkt = true
-					}
-				}
-			}
-			if underErr && !underWkt {
-				otherContinue = true
-			}
-			// a well-known-type shortcut that is not under the not-exist error at all: it skips the module lookup, so a
-			// module that *does* provide the path stops being a dependency
-			if underWkt && !underErr {
-				otherContinue = true
-			}
-			return true
-		})
-		c.Ob("WKT-NARROW", "getModuleDepsRec/continue-only-for-wkt", rec.Decl.Pos(), okWkt && !otherContinue, true, "the only `continue` on an error edge is under errors.Is(err, fs.ErrNotExist) && datawkt.Exists(path): %v", okWkt && !otherContinue)
+		c10WktNarrow(c, "WKT-NARROW")
 	}
 	if top := p.Func("private/bufpkg/bufmodule", "getModuleDeps"); top != nil && rec != nil {
 		ast.Inspect(top.Decl.Body, func(n ast.Node) bool {
@@ -488,4 +442,64 @@ func runC10(c *Ctx) {
 	}
 	c10Extra(c)
 	c10MissingImportIsError(c)
+}
+
+// c10WktNarrow: in getModuleDepsRec an import is skipped (`continue`) only when no module provides it
+// (errors.Is(err, fs.ErrNotExist)) and it is a built-in well-known type. Shared by C10 and C08 (a module that does
+// provide a well-known-type path must stay a dependency, or the importing module's digest ignores it).
+func c10WktNarrow(c *Ctx, rule string) {
+	p := c.P
+	rec := p.Func("private/bufpkg/bufmodule", "getModuleDepsRec")
+	if rec == nil {
+		c.Fail(rule, "getModuleDepsRec", token.NoPos, "not found")
+		return
+	}
+	info := rec.Info()
+	okWkt := false
+	ast.Inspect(rec.Decl.Body, func(n ast.Node) bool {
+		ifs, ok := n.(*ast.IfStmt)
+		if !ok || !strings.Contains(exprString(ifs.Cond), "datawkt.Exists") {
+			return true
+		}
+		for _, st := range ifs.Body.List {
+			if b, ok := st.(*ast.BranchStmt); ok && b.Tok == token.CONTINUE {
+				// must lie under errors.Is(err, fs.ErrNotExist)
+				for cur := p.Parent(ifs); cur != nil && cur != rec.Decl; cur = p.Parent(cur) {
+					if outer, ok := cur.(*ast.IfStmt); ok && strings.Contains(exprString(outer.Cond), "ErrNotExist") {
+						okWkt = true
+					}
+				}
+			}
+		}
+		return true
+	})
+	// and no other `continue` on an error edge
+	otherContinue := false
+	ast.Inspect(rec.Decl.Body, func(n ast.Node) bool {
+		b, ok := n.(*ast.BranchStmt)
+		if !ok || b.Tok != token.CONTINUE {
+			return true
+		}
+		underErr, underWkt := false, false
+		for cur := p.Parent(b); cur != nil && cur != rec.Decl; cur = p.Parent(cur) {
+			if ifs, ok := cur.(*ast.IfStmt); ok && containsNode(ifs.Body, b) {
+				if nonNilErrTested(info, ifs.Cond) != nil {
+					underErr = true
+				}
+				if strings.Contains(exprString(ifs.Cond), "datawkt.Exists") {
+					underWkt = true
+				}
+			}
+		}
+		if underErr && !underWkt {
+			otherContinue = true
+		}
+		// a well-known-type shortcut that is not under the not-exist error at all: it skips the module lookup, so a
+		// module that *does* provide the path stops being a dependency
+		if underWkt && !underErr {
+			otherContinue = true
+		}
+		return true
+	})
+	c.Ob(rule, "getModuleDepsRec/continue-only-for-wkt", rec.Decl.Pos(), okWkt && !otherContinue, true, "the only `continue` on an error edge is under errors.Is(err, fs.ErrNotExist) && datawkt.Exists(path): %v", okWkt && !otherContinue)
 }
